@@ -15,7 +15,7 @@ func (r *srvRun) chatStorm(st map[string]any, ev map[string]any) error {
 	nperm, nchurn, nout, nlines := intOf(st["members"]), intOf(st["churners"]), intOf(st["outsiders"]), intOf(st["lines"])
 	mk := func(name string) (*sim.Client, error) {
 		c := r.w.Dial("")
-		_, err := c.Login(sim.LoginOpts{Login: "adm", Password: string([]byte{1}), Name: name, Old: true})
+		_, err := c.Login(sim.LoginOpts{Login: "adm", Password: r.admPw, Name: name, Old: true})
 		return c, err
 	}
 	var perm, churn, outs []*sim.Client
@@ -127,7 +127,7 @@ func (r *srvRun) banStorm(st map[string]any, ev map[string]any) error {
 	var ps []pair
 	for i := 0; i < k; i++ {
 		a := r.w.Dial(fmt.Sprintf("10.50.0.%d:%d", i+1, 3000+i))
-		if _, err := a.Login(sim.LoginOpts{Login: "adm", Password: string([]byte{1}), Name: fmt.Sprintf("a%d", i), Old: true}); err != nil {
+		if _, err := a.Login(sim.LoginOpts{Login: "adm", Password: r.admPw, Name: fmt.Sprintf("a%d", i), Old: true}); err != nil {
 			return err
 		}
 		ip := fmt.Sprintf("10.60.%d.%d", i/200, i%200+1)
